@@ -180,6 +180,24 @@ def check(run):
         specs, t, gamma, pts, psd = setup(rng, quick, lmax=3)
         alpha = [0, 0.5, 1, -0.375, 2.25, 1.0][n % 6]
         fields_case(run, specs, t, gamma, pts, "general" if n % 2 else "direct", psd, alpha)
+    # alpha in R: tiny non-zero values; density matrices with exact zeros on the diagonal (with and without transformation)
+    from checks.common import zero_diag_symmetric
+    for n, alpha in enumerate([4e-9, -1e-12, 1e-300, -2.5e-7] if quick else [4e-9, -1e-12, 1e-300, -2.5e-7, 1e-8, -1e-8, 3e-16, 1e-5]):
+        specs, t, gamma, pts, psd = setup(rng, quick, lmax=2)
+        # core-like exponents make the Laplacian large next to t+, so that a dropped alpha * Laplacian is visible
+        specs = [s_.copy(exps=[e * (1e4 if k == 0 else 1.0) for k, e in enumerate(s_.exps)]) for s_ in specs]
+        fields_case(run, specs, t, gamma, np.vstack([pts, [specs[0].center]]), "general" if n % 2 else "direct", psd, alpha)
+        run.count("tiny alpha")
+    for n in range(4 if quick else 16):
+        specs, t, gamma, pts, psd = setup(rng, quick, lmax=2)
+        m = gamma.shape[0]
+        if n % 2 == 0 and t is None:
+            t = random_transform(rng, sum(s_.size for s_ in specs), rect=True)
+            m = t.shape[0]
+        gamma = zero_diag_symmetric(rng, m, nzero=1 + n % 2)
+        fields_case(run, specs, t, gamma, pts, "general" if n % 2 else "direct", False, 0.25)
+        deriv_case(run, specs, t, gamma, pts, (1, 0, 1) if n % 2 else (0, 0, 0), "general")
+        run.count("zero-diagonal density matrix")
     # deliberately negative densities: clip boundary
     for n in range(3 if quick else 12):
         specs, t, gamma, pts, psd = setup(rng, quick, lmax=2)
